@@ -10,6 +10,32 @@ COMMON_NOTE = ("trusted: Coq 8.16.1 kernel (vm_compute, no native_compute), Extr
                "Go harness + build-tag verif hooks, generated constants (harness/cmd/dump); ")
 
 CLAIMED = {
+    "C04": dict(
+        text="Coq theorems over the full Gallina transliteration of Search/SearchIterative/SearchRoot/negamax/quiescence (int16 windows, "
+             "uint8 depth/ply, all prunings, PVS, tables as explicit state), for ARBITRARY table, cache and heuristic contents, any "
+             "depth and any cancellation point: every line negamax returns is a sequence of engine-legal moves from its position "
+             "(under the window condition 'alpha <> -32768 or closed window', shown necessary by a machine-checked witness with a junk "
+             "cache entry); the answer of Search() is the null move or a generated move whose successor is legal - unconditionally - and, "
+             "for positions satisfying the C10 invariant, a member of the legal move list; s.PV changes only to the line of a completed "
+             "in-window root search; every printed PV comes from such a search; the answer is the head of the last printed PV. The clause "
+             "'null move only when no legal move exists' is proved in part (it needs score-range reasoning; statement kept, see DESIGN) and "
+             "is checked by the oracle. Tied to the code by differential runs of whole searches under a counting context (answer, every "
+             "info line, node and poll counters) incl. warmed tables; oracle: answer and PVs replayed on the engine's generator.",
+        note="PV legality of info lines excludes runs in which an info line has score -32718 (aspiration alpha wraps to -32768); 'engine-legal' = FIDE-legal via C01",
+        technique="Coq proof (induction on search fuel with loop invariants, arbitrary shared-table state) + differential correspondence check of whole searches",
+        ref="DESIGN.md section 6, C04"),
+    "C05": dict(
+        text="Coq theorems over the same search model: once the cancellation oracle is due, negamax returns the error at its first poll "
+             "with NO node counted, NO table/cache/heuristic write and the repetition stack unchanged (quiescence: exactly its one "
+             "pre-poll increment); a call during which the oracle fired never returns a value; the repetition stack, PV and output are "
+             "balanced on every path; no info line reports a depth above the requested one; with the repaired window test the "
+             "iterative-deepening loop runs at most two root searches per depth (the unrepaired loop is refuted on the fool's-mate "
+             "position by kernel evaluation); the fallback depth-1 search runs iff no move is known and cannot be cancelled. Fuel "
+             "sufficiency (termination of one root search) is NOT proved in general - stated as the bounded-check-chain hypothesis. "
+             "Wall-clock promptness is TESTED on the real process (movetime/clock/depth limits, go infinite + stop, terminal positions).",
+        note="requested depth < 255 (uint8 depth wraps at 255, as in the Go loop); wall-clock clause tested not proved; fuel sufficiency hypothesis",
+        technique="Coq proof (cancellation/unwinding invariants, loop bound) + differential correspondence check + process-level watchdog",
+        ref="DESIGN.md section 6, C05"),
     "C07": dict(
         text="Coq theorems over a byte-level model of parseGo (Go slice semantics, strconv.Atoi, named-return semantics), "
              "removePrefixGarbage and the handleInput dispatch: parse_go never panics for ANY token list; every go line of distinct "
@@ -73,6 +99,18 @@ CLAIMED = {
         note="non-zero hashes; exact-score clause for scores outside the mate range (inside it the ply-adjusted score, as stated in the theorem)",
         technique="Coq proof (invariant over operation histories with ghost log) + differential correspondence check",
         ref="DESIGN.md section 6, C14"),
+    "C16": dict(
+        text="Coq theorems over the Gallina transliteration of evalWithCache / the direct-mapped cache, for ALL evaluation sequences: "
+             "the uncached evaluation depends only on the bitboards, occupancy sets, side and the bit 'half-move clock >= 100' (never on "
+             "rights, en-passant square, hash, ply); from any sound cache - in particular the empty one - under the no-collision "
+             "hypothesis every hashed cache needs (hash -> evaluation key injective on the universe of positions evaluated, non-zero "
+             "hashes) every cached result equals the uncached one (error classes included) and the cache stays sound; clock twins across "
+             "the 100 boundary never leak in either order (no injectivity hypothesis needed); the unrepaired function is refuted with the "
+             "D9 witness in both directions. Tied to Evaluation() by differential runs of evaluation sequences with clock/rights/en-passant "
+             "twins, revisits and same-slot pairs; oracle: cached vs uncached on the implementation.",
+        note="hash injectivity on the evaluated universe and non-zero hashes are explicit hypotheses (false in general for any 64-bit hash; measured in the runs)",
+        technique="Coq proof (cache soundness invariant over histories) + differential correspondence check",
+        ref="DESIGN.md section 6, C16"),
     "C17": dict(
         text="Coq theorem over the Gallina transliteration of both generators: for every position satisfying the C10 invariant the "
              "capture generator's list EQUALS (same order, hence same multiset) the filter of the full generator's list by 'captures "
